@@ -112,6 +112,15 @@ def parse_header(l):
 # ------------------------------------------------------------------ generators
 DY = [Fraction(k, 4) for k in range(-16, 17)]
 
+# optimizer histories on a LINEAR objective (quad with A = 0: f = -b'x, exact): before the repair 1272c59f of wolfecubic
+# the first step read the bracket uninitialised; now every state must be finite, consistent and monotone
+REGRESSION_HISTORIES = [
+    ["I BFGS 1 quad 1 | 0 | 1 | 0 |  |  | ", "S", "S", "W", "S"],
+    ["I BFGS 1 quad 2 | 0 0 0 0 | 1 -1/2 | 1/2 2 |  |  | ", "S", "S", "S"],
+    ["I CG 1 quad 2 | 0 0 0 0 | 4 1 | 0 0 |  |  | ", "S", "S"],
+    ["I LBFGS 1 quad 1 | 0 | 1/4 | 3 | 5 |  | ", "S", "S"],
+]
+
 def gen_exact(rng):
     """dyadic strictly convex quadratic; with probability 0.7 the l1-norm of the first gradient is a power of two, so that
     the initial step length min(1, 1/|g|_1) and then every operation of the run is exact in binary floating point"""
@@ -473,7 +482,7 @@ def main():
         "exact rational linear solve in Python for the minimiser of the quadratics"]
     ck.assumptions = [
         "single line-search calls: n <= 4, directions with entries 0, +-1/2, +-1, +-2, 4, start 0 in the moving coordinates, t0 in {0, 1/64, 1/8, 1/4, 1/2, 1, 2}, objective = hash (values k/16 in [-8, 8), gradient entries k/8 in [-4, 4)) or -slope*t up to a threshold <= 1e7 and the hash beyond; 20% of the calls start from a value / derivative that is not the objective's",
-        "harness/c10_findings.txt: recorded inputs of reported defects that are neither repaired nor registered in known_findings.json are run and printed as PENDING-FINDING on every run without failing it (the lead decides); once registered they are reported as KNOWN-FINDING",
+        "harness/c10_findings.txt: regression inputs of the repaired wolfecubic defect (fix 1272c59f: linear objectives, all 25 expansions succeed) and the dlinmin backward-step demonstration are part of every run; REGRESSION_HISTORIES: BFGS / CG / L-BFGS with WolfeCubic on the linear objective -b'x",
         "objectives from the generated family: strictly convex quadratics 0.5x'Ax-b'x (n <= 6, condition <= 1e4; dyadic entries n <= 4 for the exact comparison), Rosenbrock-type sum p(x[i+1]-x[i]^2)^2+(1-x[i])^2 with p in {1,10,100}, box-constrained variants (BoxConstraintHandler, start inside or on the boundary)",
         "box-constrained objectives only with the optimizers that announce CAN_SOLVE_CONSTRAINED (LBFGS, Rprop); the others reject them in checkFeatures",
         "SteepestDescent learning rate <= 0.9/lambda_max (otherwise plain gradient descent diverges by design); Adam eta <= 0.1",
@@ -509,6 +518,7 @@ def main():
         cdir = os.path.join(ROOT, "corpus", PID)
         if os.path.isdir(cdir):
             for f in sorted(os.listdir(cdir)): cases += read_cases(os.path.join(cdir, f))
+        cases += [list(c) for c in REGRESSION_HISTORIES]
         cases += [gen_exact(rng) for _ in range(700 if not big else 6000)]
         cases += [gen_float(rng, big) for _ in range(900 if not big else 6000)]
 
@@ -547,18 +557,10 @@ def main():
         cf = ck.write_replay("case_%s_%d.txt" % (re.sub(r"[^A-Za-z0-9]+", "_", key)[:60], i), ls_lines[i] + "\n")
         return {"case_file": cf, "case": ls_lines[i], "implementation_output": o_, "model_input_with_oracle": ml_, "model_output": m_,
                 "monitor": [m for _, m in msgs], "difference": diff, "replay_cmd": "python3 tools/c10.py --replay %s" % cf}
-    pending = []
     for key in sorted(ls_mon):
         i, msg = ls_mon[key][0]
-        if ls_lines[i] in fixed_ls and ck.match_known(key) is None:
-            # a recorded input (harness/c10_findings.txt) of a defect that is reported but neither repaired nor registered as a
-            # known finding yet: shown on every run, kept in the evidence, does not fail the run
-            rp = ls_replay(i, key); pending.append({"key": key, "what": msg, "replay": rp["case_file"]})
-            print("PENDING-FINDING property=%s key=%s replay=%s" % (PID, key, rp["case_file"]), flush=True); log("  -> " + msg[:600])
-            continue
         ck.violation(key, ls_replay(i, key), "spec monitor fails on a single line-search call (%d cases): %s" % (len(ls_mon[key]), msg))
-    ck.notes["pending_findings"] = pending
-    n_unknown_ls = sum(len(v) for k, v in ls_mon.items() if ck.match_known(k) is None and not all(ls_lines[i] in fixed_ls for i, _ in v))
+    n_unknown_ls = sum(len(v) for k, v in ls_mon.items() if ck.match_known(k) is None)
     ck.oblige("spec monitors on %d single line-search calls (value/derivative = objective/gradient at the new point, value not increased, result independent of stack contents)" % len(ls_lines),
               n_unknown_ls == 0, "" if n_unknown_ls == 0 else "keys %s" % sorted(ls_mon)[:4])
     if ls_dis:
